@@ -217,7 +217,7 @@ func runC05(x *X) {
 			func(m *lifeModel, tags []string, out string, err error) { c05Judge(x, m.grid(), tags, out, err) })
 	})
 	wide := WideGrids()
-	x.Explore("wide", ExploreOpts{Bound: "4 tables of 10-13 columns (ragged, zero-cell row, separator, header added last, no header) x one hostile text in each column position in turn"}, func(c *Chooser) {
+	x.Explore("wide", ExploreOpts{Bound: "1 table of 56 rows and 4 tables of 10-13 columns (ragged, zero-cell row, separator, header added last, no header) x one hostile text in each column position in turn"}, func(c *Chooser) {
 		g0 := wide[c.Choose(len(wide))]
 		g := &Grid{HasHeader: g0.HasHeader, Header: append([]string{}, g0.Header...), HeaderLast: g0.HeaderLast}
 		for _, r := range g0.Rows {
